@@ -28,6 +28,9 @@ Guards:
 * templates never compute Python expressions on closure values inside the lambda (the
   documentation forbids it; there is no single "equivalent" statement for those).
 * DML runs in a transaction that is rolled back.
+* closure values have the Python type of the column they are compared with (a float for a Float column):
+  the direct form types a bind from the *value* (``f > 5`` gives an Integer bind, ``::INTEGER`` on
+  PostgreSQL) while the lambda form types it from the column, which is not a staleness question.
 * LIMIT/OFFSET closures are not compared on MSSQL: the lambda form binds the value as a
   generic parameter, the direct form as a "simple integer" limit which MSSQL renders as
   ``TOP n`` (same rows, legitimately different text).
@@ -309,6 +312,79 @@ def run(ctx):
         crits = [ta.c.x != x for x in vs]
         return ({"vals": vs}, lambda_stmt(lambda: select(ta.c.id).where(*crits)), select(ta.c.id).where(*crits))
 
+    # -- chains of 3+ links built from *shared* link functions on top of different roots.  The roots close over
+    #    the same objects (identical closure keys): only their code objects tell them apart.
+    def shared_tail(s, v):
+        s += lambda s_: s_.where(ta.c.id > v)
+        s += lambda s_: s_.order_by(ta.c.id)
+        return s
+
+    def shared_tail4(s, v, w):
+        s += lambda s_: s_.where(ta.c.id > v)
+        s += lambda s_: s_.where(ta.c.id != w)
+        s += lambda s_: s_.order_by(ta.c.id.desc())
+        return s
+
+    @template("three_links_shared_tail_roots")
+    def _():
+        v = ival()
+        which = rng.randrange(3)
+        if which == 0:
+            root, direct = lambda_stmt(lambda: select(ta.c.id, ta.c.x)), select(ta.c.id, ta.c.x)
+        elif which == 1:
+            root, direct = lambda_stmt(lambda: select(ta.c.id, ta.c.y)), select(ta.c.id, ta.c.y)
+        else:
+            root, direct = lambda_stmt(lambda: select(ta.c.s, ta.c.id).where(ta.c.flag.is_not(None))), \
+                select(ta.c.s, ta.c.id).where(ta.c.flag.is_not(None))
+        return {"root": which, "v": v}, shared_tail(root, v), direct.where(ta.c.id > v).order_by(ta.c.id)
+
+    @template("four_links_shared_tail_roots")
+    def _():
+        v, w = ival(), ival()
+        which = rng.randrange(2)
+        if which == 0:
+            root, direct = lambda_stmt(lambda: select(ta.c.id)), select(ta.c.id)
+        else:
+            root, direct = lambda_stmt(lambda: select(ta.c.id, ta.c.f)), select(ta.c.id, ta.c.f)
+        # roots differ two and three levels above the last link
+        return ({"root": which, "v": v, "w": w}, shared_tail4(root, v, w),
+                direct.where(ta.c.id > v).where(ta.c.id != w).order_by(ta.c.id.desc()))
+
+    @template("shared_tail_middle_differs")
+    def _():
+        v = ival()
+        which = rng.randrange(2)
+        s = lambda_stmt(lambda: select(ta.c.id, ta.c.x))
+        if which == 0:
+            s += lambda s_: s_.where(ta.c.x.is_not(None))
+            direct = select(ta.c.id, ta.c.x).where(ta.c.x.is_not(None))
+        else:
+            s += lambda s_: s_.where(ta.c.y.is_not(None))
+            direct = select(ta.c.id, ta.c.x).where(ta.c.y.is_not(None))
+        return {"mid": which, "v": v}, shared_tail(s, v), direct.where(ta.c.id > v).order_by(ta.c.id)
+
+    # -- a track_on link followed by links whose SQL-construct closure variables vary
+    @template("track_on_then_column_link")
+    def _():
+        col = rng.choice([ta.c.x, ta.c.y, ta.c.id])
+        v, w = ival(), ival() + 0.5   # a float for the Float column (see guards)
+        s = lambda_stmt(lambda: select(ta.c.id))
+        s = s.add_criteria(lambda s_: s_.where(ta.c.f > w), track_on=[ta.c.f])
+        s += lambda s_: s_.where(col != v)
+        return {"col": col.name, "v": v, "w": w}, s, select(ta.c.id).where(ta.c.f > w).where(col != v)
+
+    @template("track_on_then_table_and_column_links")
+    def _():
+        tab = rng.choice([tb, tc])
+        col = rng.choice([ta.c.x, ta.c.y])
+        v = ival()
+        s = lambda_stmt(lambda: select(ta.c.id))
+        s = s.add_criteria(lambda s_: s_.where(col > v), track_on=[col])
+        s = s.add_criteria(lambda s_: s_.where(ta.c.id.in_(select(tab.c.id))))
+        s += lambda s_: s_.order_by(ta.c.id)
+        return ({"tab": tab.name, "col": col.name, "v": v}, s,
+                select(ta.c.id).where(col > v).where(ta.c.id.in_(select(tab.c.id))).order_by(ta.c.id))
+
     @template("update_lambda", dml=True)
     def _():
         v, w = ival(), ival()
@@ -440,7 +516,7 @@ def run(ctx):
                 continue
             has_none = any(v is None for v in vals.values())
             has_bool = any(isinstance(v, bool) for v in vals.values())
-            struct_keys = {k: v for k, v in vals.items() if k in ("col", "tab", "cols", "ent") or v is None or isinstance(v, list) and k == "vals" and False}
+            struct_keys = {k: v for k, v in vals.items() if k in ("col", "tab", "cols", "ent", "root", "mid") or v is None or isinstance(v, list) and k == "vals" and False}
             struct = repr(sorted(struct_keys.items())) + (":len%d" % len(vals["vals"]) if "vals" in vals else "")
             p = prev.get(name)
             changed = p is not None and any(p.get(k) != v for k, v in vals.items())
